@@ -3,11 +3,13 @@ import Driver.C01Mon
 import Driver.C02Mon
 import Driver.C12Mon
 import Driver.FlowMon
+import Driver.C16Mon
 open Kv
 
 structure MState where
   c04 : Drv.Flow.MonSt := {}
   c07 : Drv.Flow.MonSt := {}
+  c16 : C16.MonState := {}
   deriving Inhabited
 
 /-- monitor-only driver: imports nothing generated, so it builds whatever the source looks like -/
@@ -18,6 +20,7 @@ def dispatchMon (st : MState) (prop : String) (l : Line) : MState × String :=
   | "C12" => (st, Drv.C12.step l)
   | "C04" => let (s, r) := Drv.Flow.stepMon "C04" st.c04 l; ({ st with c04 := s }, r)
   | "C07" => let (s, r) := Drv.Flow.stepMon "C07" st.c07 l; ({ st with c07 := s }, r)
+  | "C16" => let (s, r) := Drv.C16.stepMon st.c16 l; ({ st with c16 := s }, r)
   | _ => (st, "bad-op")
 
 def main : IO Unit := driverMain dispatchMon {}
